@@ -228,6 +228,13 @@ static bool run_case(const struct casei *c, struct units *out, char *acct, size_
         if (c->disc == chunk)
             uref_flow_set_discontinuity(u);
         upipe_input(p, u, NULL);
+        if (c->c.pipe == P_CHUNK) {
+            /* setter calls the documentation says are refused (mtu 0, alignment 0, alignment larger than the mtu), between any
+             * two chunks: whatever they return, they must not change how the stream is cut (the oracles below are unchanged) */
+            (void)upipe_chunk_stream_set_mtu(p, 0, 1);
+            (void)upipe_chunk_stream_set_mtu(p, c->c.a, 0);
+            (void)upipe_chunk_stream_set_mtu(p, c->c.a, 2 * c->c.a);
+        }
     }
     upipe_release(p);
     out->n = 0;
